@@ -161,7 +161,9 @@ func cmdDump(args []string) int {
 	fnName := fs.String("func", "", "function key substring")
 	out := fs.String("out", "/var/tmp/govc-out", "output dir")
 	timeout := fs.Int("t", 10, "solver timeout (s)")
+	prop := fs.String("prop", "", "view of one property (clause tags, property-scoped lock directives)")
 	fs.Parse(args)
+	currentProp = *prop
 	extra, _ := filepath.Glob("/verif/contracts/*_verif.go")
 	cs, err := loadContracts(*repo, extra)
 	if err != nil {
